@@ -149,34 +149,23 @@ Theorem C10_short_list_raises :
 Proof. exact short_list_raises. Qed.
 Print Assumptions C10_short_list_raises.
 
-(* 9. FINDING (kept faithful to the code): the docstring of filter_objects says the confidence list "is
-      only used when is_gt=False", but _is_target_object applies it to ground truth as well.  A ground
-      truth satisfying every ground-truth criterion is dropped when its own semantic_score does not exceed
-      the confidence threshold of its label.  (Dataset ground truth has score 1.0, so this needs a
-      threshold >= 1.0; [kept] above is the rule the code implements, confidence included.) *)
-Theorem C10_confidence_estimates_only_refuted :
-  exists c tf o,
-    wf_cfg c /\ obj_ok c true o /\
-    is_target (gt_side c) tf true o = Ok true /\     (* passes label, range, points, uuid *)
-    is_target c tf true o = Ok false.                (* dropped by the confidence list *)
-Proof.
-  exists (mkCfg (Some [2]%nat) None (Some [10]) (Some [10]) None None None (Some [1]) None), true,
-         (mkObj 0 2 "car" [] 1 (Some "a"%string) true (Some (1, 0, 1)) (Some 3%Z) 0).
-  split. { unfold wf_cfg, len_ok; simpl. repeat split; intros l H; try discriminate; inversion H; subst;
-           (exists [2]%nat; repeat split; [discriminate]). }
-  split. { intros _ H. exfalso. apply H. reflexivity. }
-  split; vm_compute; reflexivity.
-Qed.
-Print Assumptions C10_confidence_estimates_only_refuted.
+(* 9. the confidence list never decides on a ground truth (documented: "only used when is_gt=False";
+      repaired in /repo by 54ea74c -- before, a ground truth whose own score did not exceed the threshold of
+      its label was dropped): for is_gt = true the predicate is the one of the parameters without the list *)
+Theorem C10_confidence_estimates_only :
+  forall c tf o,
+    is_target c tf true o = is_target (without_conf c) tf true o /\
+    kept c tf true o = kept (without_conf c) tf true o.
+Proof. exact confidence_estimates_only. Qed.
+Print Assumptions C10_confidence_estimates_only.
 
-(* the guarded version: with no confidence list, or for estimates, the documented rule is the code's rule *)
-Theorem C10_confidence_estimates_only_partial :
-  forall c tf o, c_conf c = None -> kept (gt_side c) tf true o = kept c tf true o.
-Proof.
-  intros c tf o H. unfold kept, use_unknown_threshold, is_contained_unknown, targeted, ignored, in_range, points_ok, uuid_ok, bound_for.
-  cbn [gt_side c_targets c_ignore c_max_x c_max_y c_max_dist c_min_dist c_min_pts c_conf c_uuids]. rewrite H. reflexivity.
-Qed.
-Print Assumptions C10_confidence_estimates_only_partial.
+(* the former witness: threshold 1 = the ground truth's own score; it is kept *)
+Example C10_nonvacuous_gt_confidence :
+  is_target (mkCfg (Some [2]%nat) None (Some [10]) (Some [10]) None None None (Some [1]) None) true true
+            (mkObj 0 2 "car" [] 1 (Some "a"%string) true (Some (1, 0, 1)) (Some 3%Z) 0) = Ok true /\
+  is_target (mkCfg (Some [2]%nat) None (Some [10]) (Some [10]) None None None (Some [1]) None) true false
+            (mkObj 0 2 "car" [] 1 (Some "a"%string) true (Some (1, 0, 1)) (Some 3%Z) 0) = Ok false.
+Proof. vm_compute. split; reflexivity. Qed.
 
 Theorem C10_all_clauses : C10_statement.
 Proof.
